@@ -14,7 +14,11 @@ func (s *syntaxSlicePositiveStepSubscript) getIndexes(srcLength int) []int {
 
 	index, result := 0, make([]int, srcLength)
 	if s.step.number > 0 {
-		for i := loopStart; i < loopEnd; i += s.step.number {
+		step := s.step.number
+		if step > srcLength {
+			step = srcLength
+		}
+		for i := loopStart; i < loopEnd; i += step {
 			result[index] = i
 			index++
 		}
